@@ -141,7 +141,7 @@ prop("C09", "exploration",
 prop("C20", "exploration",
      "W1r, two generators: (a) general transfer histories with CleanNow / Prune(0|1h|24h) at arbitrary points, 25 h waits, name reuse, retransmissions, "
      "restarts; (b) directed: a staging area assembled from drawn ingredients (partial in progress, partial of a new version of a delivered name, validated "
-     "file held for its predecessor, late duplicate of a delivered file, failed copy, abandoned partial), aged 0 / 1 h / 25 h / 49 h (the periodic cleaner "
+     "file held for its predecessor, late duplicate of a delivered file, failed copy, failed copy with its retransmission under way, abandoned partial), aged 0 / 1 h / 25 h / 49 h (the periodic cleaner "
      "fires meanwhile), cleaned 1-2 times, then every transfer is finished by sending only what the partials listing does not show as held; oracle: data "
      "that leaves staging belongs to a delivered/logged (name, hash); live companions and acknowledged parts survive; removed directories were empty and old "
      "enough; transfers complete without retransmission; non-trivial = a cleaning ran while an undelivered version had staged data older than 24 h",
@@ -149,7 +149,7 @@ prop("C20", "exploration",
            required_classes=["clean", "name-reuse", "advance-25h"]),
       dict(pkg="stagex", test="TestC20Directed", world="W1r", quick=1200, thorough=36000, per_proc=100, shrink_runs=200,
            required_classes=["clean-with-old-undelivered-partial", "ingredient-new-version-of-delivered-name", "ingredient-held",
-                             "ingredient-late-duplicate", "prune-removed-directory"])],
+                             "ingredient-late-duplicate", "prune-removed-directory", "ingredient-retry-after-failed-validation"])],
      STAGE_ASSUME + ["directory and file times are stamped by the kernel in real time; the harness restamps them to simulated time at settled points before "
                      "ages matter",
                      "ages above 1 h are not combined with a file held for an unknown predecessor (the receiver's own 10 s log look-ups make that combination cost minutes)"])
